@@ -288,7 +288,7 @@ class EvalMixin:
 
     BUILTIN_METHOD_NAMES = {"append", "pop", "insert", "extend", "remove", "clear", "get", "items", "values", "keys", "setdefault",
                             "update", "add", "discard", "upper", "lower", "strip", "startswith", "endswith", "join", "replace", "copy",
-                            "index", "count", "find", "split", "sort", "reverse", "format", "isdigit", "isalnum"}
+                            "index", "count", "find", "split", "sort", "reverse", "format", "isdigit", "isalnum", "translate", "isspace", "title"}
 
     def narrow(self, st, sv):
         """Give a value of statically unknown kind a static hint when the path condition forces its kind."""
@@ -350,6 +350,20 @@ class EvalMixin:
             if base.ty and base.ty.startswith("obj:"):
                 cls = self.resolve_class_name(base.ty[4:])
                 static = _static_attr(cls, attr)
+                if static is None and not self.is_instance_field(cls, attr):
+                    # the attribute may be defined by a subclass (e.g. Identifier.quoted on an Expression-typed value):
+                    # use that definition only when the path condition forces the value into that subclass
+                    from .state import _all_subclasses
+
+                    owners = [c for c in _all_subclasses(cls) if attr in vars(c)]
+                    if owners:
+                        for c in owners:
+                            self.classes.register(c)
+                            fact = self.classes.isa(c, smt.CLS[Val.r(base.t)])
+                            if not self.feasible(st1, z3.Not(fact)):
+                                self.classes.by_name.setdefault(c.__name__, c)
+                                return self.attr_load(st1, SV(base.t, "obj:" + c.__name__, base.meta), attr, node, k)
+                        raise Unsupported(f"attribute {attr} is defined only by subclasses of {cls.__name__} and the path does not fix the subclass")
                 if static is not None:
                     kind, obj = static
                     if kind == "method":
